@@ -34,6 +34,15 @@ CLAIMED = {
             'Trusted: the reference checker in mc/props/c02.py (7 rules over one boolean variable), mc/holsem.py. States are merged '
             'by the table path -> (id, sequent, placeholder?, block?) (argument in state_key). Depth 3 (thorough 4), menus in bounds.',
             'DESIGN.md §3 C02'),
+    'C03': ('exploration',
+            'bounded exhaustive enumeration of terms/instantiations/object histories on the real Term/Type classes, reference-term oracle',
+            'All ordered pairs/triples of the smallest well-typed terms and types (with alpha-variants and same-name-different-type atoms) '
+            'for ==, hash and the term order; every term x every instantiation of <=2 variables (closed and open values) for subst, '
+            'subst_type, subst_bound, beta_conv, beta_norm, abstract_over/Lambda, incr_boundvars on tree-shaped and on maximally '
+            'shared (DAG) objects; all histories of <=4 (thorough 5) object events new/copy-construct/copy/drop/gc/hash/compare.',
+            'Trusted: mc/ref.py (textbook de Bruijn operations, validated against the finite-model semantics in the self test). CPython '
+            'address reuse is observed, not controlled. Terms up to size 6 (thorough 8).',
+            'DESIGN.md §3 C03'),
 }
 
 PENDING_REASON = 'check not built yet in this round (planned, see DESIGN.md §3/§7); not claimed until its machinery exists'
